@@ -156,10 +156,26 @@ def extract_nodata(mod: ast.Module) -> dict:
     return {"replacement": vals.pop()}
 
 
+def window_params(mod: ast.Module) -> dict:
+    """the four comparison flags of get_window: read off the pinned text; when the text of the function is not the
+    pinned one any more but translator/pyexpr.py still translates it (gen_kernels_glue.py), read off the translated
+    function at the four image edges — `C16Kernels.getWindow_eq_source` then proves, for all inputs, that the function
+    is `Dataset.getWindow` with these flags (a wrong choice, or a function outside that family, is a failing proof)"""
+    try:
+        return extract_window(mod)
+    except Unsupported as textual:
+        from . import gen_kernels_glue
+
+        try:
+            return gen_kernels_glue.window_flags()
+        except Unsupported as exc:
+            raise Unsupported(f"{textual}; and not translated either: {exc}") from exc
+
+
 def extract() -> dict:
     mod = parse(SRC)
     out = {}
-    out.update(extract_window(mod))
+    out.update(window_params(mod))
     out.update(extract_mask(mod))
     out.update(extract_attrs(mod))
     out.update(extract_nodata(mod))
